@@ -26,6 +26,8 @@ func init() {
 			"structured: full products of argument mini-languages - replace templates x regexps with participating / non-participating / zero captures, split separators x limits, lastIndex values, RegExp sources from 40 pattern atoms (length <= 2, thorough 3) x flags, " +
 			"JSON texts from 25 tokens (length <= 3, thorough 4) and stringify value x replacer x gap, Date strings from 30 pieces, Function constructor parameter lists x bodies, digit counts, array lengths, array-likes with odd lengths x 28 Array methods, sort comparators, apply/bind with array-likes, percent escapes, and []uint16-backed strings in every operator / conversion position. " +
 			"bytes: all byte strings of length <= 2 and length 3 over a 40-byte alphabet; tokens: all strings of <= 4 (thorough 5) tokens over a 22-token alphabet; each through Run, Compile+Run, Eval, Object, Call(nil) and Call(this); non-trivial = the text got past the parser. " +
+			"statements: all sequences of <= 2 (thorough 3) statements over 46 minimal statement forms (labelled non-loops and loops, nested labels, every loop kind with break / continue, switch, try, with, function declarations containing loops, ASI cases) x {top level, function body, block} x {Run, Compile, Eval, eval(), new Function()}. " +
+			"surface-frag: 44 degenerate numeric / prefix / escape / pattern fragment strings (\"-\", \"0x\", \"%u1\", \"$&\", \"(\", ...) in every position of arity-1 and arity-2 calls (with 5 companions) of every function x 10 receivers (quick: the global functions and the Number / String / RegExp / JSON / Date / Math entry points x 4 receivers). " +
 			"recursion: stack depth limit L in {1..16,100,1000,10000} x depth d in {0..L+2, unbounded} x 24 call / re-entry forms (direct and indirect eval of self-evaluating code, Function-constructor bodies, valueOf / toString / toJSON / getter / setter re-entry, forEach / map / reduce / sort / replace callbacks, ...) + 2 forms that recurse inside JSON.stringify; non-trivial = the limit was hit. " +
 			"goapi-value: 107 Value/Object accessor variants x 46 value kinds; goapi-otto: Value.Call and Otto.Get/Set/Call/Eval/Context/ToValue/MakeError/Copy around every arity-0 surface call. " +
 			"entry: 27 entry routes (Run, Eval, Compile, Otto.Call, Value.Call and Object.Call at rest, native callback at rest, host re-entry, getters / setters / toString / toJSON run by Go-side Get / Set / Export / String / MarshalJSON, Copy) x 48 callee bodies touching frame- and scope-dependent machinery (caller, arguments.callee, this, Error().stack, direct / indirect eval, Function, with, try/finally, labels, recursion to the limit, Otto.Context from a host function). " +
@@ -51,6 +53,8 @@ func init() {
 			{Name: "deep-source", Run: supervised(runDeepSource)},
 			{Name: "bytes", Run: supervised(runBytes)},
 			{Name: "tokens", Run: supervised(runTokens)},
+			{Name: "statements", Run: supervised(runStatements)},
+			{Name: "surface-frag", Run: supervised(runSurfaceFrag)},
 			{Name: "recursion", Run: supervised(runRecursion)},
 			{Name: "goapi-value", Run: supervised(runGoAPIValue)},
 			{Name: "goapi-otto", Run: supervised(runGoAPIOtto)},
